@@ -173,20 +173,29 @@ def j_c03_logexp(case, resps):
     return []
 
 
-def j_c03_logexp2(case, resps):
-    """second stage: log(exp t) = t"""
-    grp = case["group"]
-    t = case["t"]
+def s2_logexp(case, resps):
     v, e = parse(resps[0])
     if v is None or not fin(v):
-        return [V("C03", grp, "log∘exp", "status", case["tags"], case["reqs"][0], resps[0][:60], float("inf"), 0)]
+        return []
+    return [gen.req(True, "o", case["group"], "log", 0, v)]
+
+
+def j_c03_logexp2(case, resps):
+    """log(exp t) = t (second stage feeds the implementation's exp into its log)"""
+    grp = case["group"]
+    t = case["t"]
+    if len(resps) < 2:
+        return [V("C03", grp, "exp", "status", case["tags"], case["reqs"][0], "no finite result: %s" % resps[0][:60], float("inf"), 0)]
+    v, e = parse(resps[1])
+    if v is None or not fin(v):
+        return [V("C03", grp, "log∘exp", "status", case["tags"], case["reqs"][-1], resps[1][:60], float("inf"), 0)]
     s = lin_scale(grp, t)
     ang = rot_angle_of_tangent(grp, t)
     # conditioning of the inverse map degrades like 1/(pi - angle) for the linear part
     tol = 1e-10 * s / max(1e-3, min(1.0, math.pi - ang))
     d = max(abs(a - b) for a, b in zip(v, t))
     if d > tol:
-        return [V("C03", grp, "log∘exp", "value", case["tags"], case["reqs"][0], "log(exp t) != t", d, tol)]
+        return [V("C03", grp, "log∘exp", "value", case["tags"], case["reqs"][-1], "log(exp t) != t", d, tol)]
     return []
 
 
@@ -285,7 +294,9 @@ def j_c05(case, resps):
         cmp("J_m_t", J, ref)
     elif op == "log":
         TX = g.T(mpl(case["X"]))
-        _, J = _split_out(v, [n, n * n])
+        tv, J = _split_out(v, [n, n * n])
+        if rot_angle_of_tangent(grp, tv) > math.pi - 1e-6:
+            return out
         ref = oracle.num_jac(lambda d: g.log(TX * g.exp(d)), n, n)
         cmp("J_t_m", J, ref)
     elif op == "inverse":
@@ -319,7 +330,9 @@ def j_c05(case, resps):
         cmp("J_t", Jt, oracle.num_jac(lambda d: g.log(F0i * ft(d)), n, n))
     elif op in ("rminus", "lminus"):
         TX, TY = g.T(mpl(case["X"])), g.T(mpl(case["Y"]))
-        _, Ja, Jb = _split_out(v, [n, n * n, n * n])
+        tv, Ja, Jb = _split_out(v, [n, n * n, n * n])
+        if rot_angle_of_tangent(grp, tv) > math.pi - 1e-6:
+            return out      # relative rotation outside the property's quantifier (0 .. pi-1e-6)
         if op == "rminus":
             f = lambda A, B: g.log(mp.inverse(B) * A)
         else:
@@ -332,6 +345,60 @@ def j_c05(case, resps):
         _, Jm, Jv = _split_out(v, [D, D * n, D * D])
         cmp("J_m", Jm, oracle.num_jac(lambda d: g.act(TX * g.exp(d), p), n, D))
         cmp("J_v", Jv, oracle.num_jac(lambda d: g.act(TX, [a + b for a, b in zip(p, d)]), D, D))
+    return out
+
+
+def s2_c04(case, resps):
+    """(X+t)-X and X+(Y-X): chain the implementation's own results"""
+    grp = case["group"]
+    out = []
+    vp, _ = parse(resps[0])      # rplus(X,t)
+    vm, _ = parse(resps[2])      # rminus(Y,X)  (= Y - X)
+    if vp is not None and fin(vp):
+        out.append(gen.req(True, "o", grp, "rminus", 0, vp[:REG[grp].repsize] + case["X"]))
+    if vm is not None and fin(vm):
+        out.append(gen.req(True, "o", grp, "rplus", 0, case["X"] + vm[:REG[grp].dof]))
+    return out
+
+
+def j_c04(case, resps):
+    g = REG[case["group"]]
+    grp = case["group"]
+    X, Y, t = case["X"], case["Y"], case["t"]
+    TX, TY, Et = g.T(mpl(X)), g.T(mpl(Y)), g.exp(mpl(t))
+    s = lin_scale(grp, X, Y, t)
+    tol = 1e-10 * s
+    out = []
+    names = ["rplus", "lplus", "rminus(Y,X)", "lminus(Y,X)", "between"]
+    refs = [TX * Et, Et * TX, mp.inverse(TX) * TY, TY * mp.inverse(TX), mp.inverse(TX) * TY]
+    vals = []
+    for nm, line, r in zip(names, case["reqs"], resps):
+        v, e = parse(r)
+        if v is None or not fin(v):
+            out.append(V("C04", grp, nm, "status", case["tags"], line, "no finite result: %s" % r[:60], float("inf"), 0))
+            return out
+        vals.append(v)
+    for k, nm in enumerate(names):
+        got = g.exp(mpl(vals[k])) if "minus" in nm else g.T(mpl(vals[k]))
+        d = oracle.maxdiff(got, refs[k])
+        kt = tol * (s if "minus" in nm or nm == "between" else 1.0)
+        if d > kt:
+            out.append(V("C04", grp, nm, "value", case["tags"], case["reqs"][k], nm + " is not the documented composition", d, kt))
+    ang_t = rot_angle_of_tangent(grp, t)
+    rel = rot_angle_of_tangent(grp, vals[2])
+    if len(resps) >= 7:
+        back, _ = parse(resps[5])     # (X+t)-X
+        if back is not None and fin(back) and ang_t < math.pi - 1e-3:
+            d = max(abs(a - b) for a, b in zip(back, t))
+            kt = 1e-9 * s * s
+            if d > kt:
+                out.append(V("C04", grp, "(X+t)-X", "value", case["tags"], case["reqs"][5], "(X+t)-X != t", d, kt))
+        fwd, _ = parse(resps[6])      # X+(Y-X)
+        if fwd is not None and fin(fwd) and rel < math.pi - 1e-3:
+            d = oracle.maxdiff(g.T(mpl(fwd)), TY)
+            kt = 1e-9 * s * s
+            if d > kt:
+                out.append(V("C04", grp, "X+(Y-X)", "value", case["tags"], case["reqs"][6], "X+(Y-X) != Y", d, kt))
     return out
 
 
@@ -434,7 +501,8 @@ def j_c07(case, resps):
     return out
 
 
-JUDGES = {"c07": j_c07, "c01": j_c01, "c02": j_c02, "c03a": j_c03_explog, "c03b": j_c03_logexp2,
+STAGE2 = {"logexp": s2_logexp, "c04": s2_c04}
+JUDGES = {"c07": j_c07, "c04": j_c04, "c01": j_c01, "c02": j_c02, "c03a": j_c03_explog, "c03b": j_c03_logexp2,
           "c05": j_c05, "c06": j_c06, "c06adj": j_c06_adj}
 
 
@@ -479,7 +547,7 @@ def cases(prop, r, group, n, dbg=True):
                 t, tt = gen.tangent(r, group, lin_only=["zero", "tiny", "unit", "large"],
                                     angle_only=["zero", "denormal", "tiny", "small", "below-switch",
                                                 "above-switch", "cuberoot-switch", "low", "generic", "near-pi"])
-                cs.append(dict(prop=prop, group=group, kind="c03b", stage2="log", tags=tt, t=t,
+                cs.append(dict(prop=prop, group=group, kind="c03b", stage2="logexp", tags=tt, t=t,
                                reqs=[gen.req(dbg, "o", group, "exp", 0, t)]))
         elif prop == "C06":
             if r.random() < 0.75:
@@ -491,6 +559,16 @@ def cases(prop, r, group, n, dbg=True):
             else:
                 X, tx = gen.element(r, group, norm="exact", lin_only=["zero", "tiny", "unit", "large"])
                 cs.append(dict(prop=prop, group=group, kind="c06adj", reqs=[gen.req(dbg, "o", group, "adj", 0, X)], tags=tx, X=X))
+        elif prop == "C04":
+            lin = ["zero", "tiny", "unit", "large"]
+            ang = ["zero", "denormal", "tiny", "small", "below-switch", "above-switch", "low", "generic", "near-pi6"]
+            X, tx = gen.element(r, group, norm="exact", lin_only=lin)
+            Y, ty = gen.element(r, group, norm="exact", lin_only=lin)
+            t, tt = gen.tangent(r, group, lin_only=lin, angle_only=ang)
+            reqs = [gen.req(dbg, "o", group, "rplus", 0, X + t), gen.req(dbg, "o", group, "lplus", 0, X + t),
+                    gen.req(dbg, "o", group, "rminus", 0, Y + X), gen.req(dbg, "o", group, "lminus", 0, Y + X),
+                    gen.req(dbg, "o", group, "between", 0, X + Y)]
+            cs.append(dict(prop=prop, group=group, kind="c04", stage2="c04", reqs=reqs, tags=tx + ty + tt, X=X, Y=Y, t=t))
         elif prop == "C07":
             n = G["dof"]
             mag = r.choice([1, 3, 40, 1000])
@@ -550,24 +628,21 @@ def run(cs, harness_exe, jobs=16):
         k = len(c["reqs"])
         work.append((c, resp[i:i + k]))
         i += k
-    # two-stage cases (log∘exp): feed the implementation's exp back into its log
-    stage2 = [(c, rs) for c, rs in work if c.get("stage2")]
+    # two-stage cases: second-stage requests are built from the implementation's own answers
+    stage2 = [(k, c, rs) for k, (c, rs) in enumerate(work) if c.get("stage2")]
     if stage2:
-        l2 = []
-        for c, rs in stage2:
-            v, e = parse(rs[0])
-            l2.append(gen.req(True if c["reqs"][0][0] == "1" else False, "o", c["group"], "log", 0, v) if v is not None and fin(v) else None)
-        lines2 = [l for l in l2 if l]
-        rc, resp2, err = vlib.run_lines_parallel(harness_exe, lines2, 8)
-        it = iter(resp2)
-        new = {}
-        for (c, rs), l in zip(stage2, l2):
-            if l is None:
-                new[id(c)] = (dict(c, kind="c03b"), [rs[0]])
-            else:
-                c2 = dict(c, kind="c03b", reqs=[l])
-                new[id(c)] = (c2, [next(it)])
-        work = [new.get(id(c), (c, rs)) for c, rs in work]
+        extra = []
+        for k, c, rs in stage2:
+            extra.append(STAGE2[c["stage2"]](c, rs))
+        lines2 = [l for ls in extra for l in ls]
+        rc, resp2, err = vlib.run_lines_parallel(harness_exe, lines2, 8) if lines2 else (0, [], "")
+        if len(resp2) != len(lines2):
+            raise RuntimeError("harness desync in stage 2")
+        j = 0
+        for (k, c, rs), ls in zip(stage2, extra):
+            c2 = dict(c, reqs=c["reqs"] + ls)
+            work[k] = (c2, rs + resp2[j:j + len(ls)])
+            j += len(ls)
     with mpx.Pool(jobs) as pool:
         res = pool.map(_judge_star, work, chunksize=4)
     return [v for r in res for v in r]
